@@ -11,6 +11,7 @@ CONSTANTS
     MaxNow = 6
     MaxOps = 5
     MaxQ = 2
+    EmptyOn = 2
     Hist = FALSE
 INVARIANT Inv
 CHECK_DEADLOCK FALSE
